@@ -69,6 +69,15 @@ class StridingDownscale(Contract):
     def raises_when(self, c):
         return [(NotImplementedError, Not(supported_general(self.f)))]
 
+    bounded_bound = "shapes (C<=2, Z,Y,X<=5), factors in {-1..5}^3"
+
+    def bounded_models(self, cfg, tier):
+        for Z, Y, X in itertools.product((1, 2, 3, 5), repeat=3):
+            for f in itertools.product((1, 2, 3, 4), repeat=3):
+                yield {"C": 2, "Z": Z, "Y": Y, "X": X, "Dx": f[0], "Dy": f[1], "Dz": f[2]}
+        for f in ((0, 1, 1), (1, -1, 1), (1, 1, 0)):
+            yield {"C": 1, "Z": 3, "Y": 3, "X": 3, "Dx": f[0], "Dy": f[1], "Dz": f[2]}
+
     def replay(self, model, cfg, ob_name):
         from neuroglancer_scripts.downscaling import StridingDownscaler
         g = lambda n, lo=1, hi=7: min(max(lo, model.get(n, lo)), hi)
@@ -191,13 +200,21 @@ class MajorityDownscale(Contract):
     def raises_when(self, c):
         return [(NotImplementedError, Not(supported_general(self.f)))]
 
+    bounded_bound = "shapes (Z,Y,X<=5), factors in {1..4}^3, labels from 3 values (random fill, 6 seeds)"
+
+    def bounded_models(self, cfg, tier):
+        for Z, Y, X in itertools.product((1, 2, 3, 5), repeat=3):
+            for f in itertools.product((1, 2, 3), repeat=3):
+                for seed in range(3):
+                    yield {"C": 1, "Z": Z, "Y": Y, "X": X, "Dx": f[0], "Dy": f[1], "Dz": f[2], "seed": seed}
+
     def replay(self, model, cfg, ob_name):
         from collections import Counter
         from neuroglancer_scripts.downscaling import MajorityDownscaler
         g = lambda n, lo=1, hi=5: min(max(lo, model.get(n, lo)), hi)
         shape = (1, g("Z"), g("Y"), g("X"))
         f = [min(max(model.get(n, 1), -1), 4) for n in ("Dx", "Dy", "Dz")]
-        rng = np.random.default_rng(4)
+        rng = np.random.default_rng(4 + model.get("seed", 0))
         a = rng.integers(0, 3, size=shape).astype(cfg)
         try:
             r = MajorityDownscaler().downscale(a, f)
@@ -303,13 +320,23 @@ class AveragingDownscale(Contract):
     def raises_when(self, c):
         return []
 
+    bounded_bound = "shapes (Z,Y,X<=5), values from {0,1,2,3,max-1,max} (random fill, 4 seeds), outside value in {0,7,max}"
+
+    def bounded_models(self, cfg, tier):
+        dt = cfg[1]
+        hi = int(np.iinfo(dt).max) if np.dtype(dt).kind == "u" else 100
+        for Z, Y, X in itertools.product((1, 2, 3, 5), repeat=3):
+            for seed in range(4):
+                for ov in ((0, 7, hi) if cfg[2] == "constant" else (0,)):
+                    yield {"Z": Z, "Y": Y, "X": X, "seed": seed, "outside_value": ov}
+
     def replay(self, model, cfg, ob_name):
         from fractions import Fraction
         from neuroglancer_scripts.downscaling import AveragingDownscaler
         (fx, fy, fz), dt, mode = cfg
         g = lambda n, lo=1, hi=5: min(max(lo, model.get(n, lo)), hi)
         shape = (1, g("Z"), g("Y"), g("X"))
-        rng = np.random.default_rng(5)
+        rng = np.random.default_rng(5 + model.get("seed", 0))
         hi = np.iinfo(dt).max if np.dtype(dt).kind == "u" else 1000
         a = rng.choice([0, 1, 2, 3, int(hi) - 1, int(hi)], size=shape).astype(dt)
         ov = float(min(model.get("outside_value", 0), int(hi))) if mode == "constant" else None
@@ -384,3 +411,71 @@ class AveragingUnsupported(Contract):
 
     def raises_when(self, c):
         return [(NotImplementedError, True)]
+
+
+@register
+class AveragingInit(Contract):
+    target = DS + "AveragingDownscaler.__init__"
+    props = ("C07",)
+    use_at_call_sites = False
+    configs = ("none", "value")
+
+    def setup(self, c, cfg):
+        from neuroglancer_scripts.downscaling import AveragingDownscaler
+        self.obj = SObj(AveragingDownscaler)
+        self.cfg = cfg
+        if cfg == "none":
+            self.ov = None
+        else:
+            ov = c.int("outside_value", inp=True)          # integer-valued float, including 0.0
+            self.ov = SReal(z3.ToReal(ov.t))
+        return (self.obj, self.ov), {}
+
+    def bind(self, fn, args, kwargs):
+        return {}
+
+    def ensures(self, c, result):
+        a = self.obj.attrs
+        if self.cfg == "none":
+            return [("no-outside-value:edge-padding", a.get("padding_mode") == "edge" and a.get("pad_kwargs") == {})]
+        kw = a.get("pad_kwargs") or {}
+        return [("outside-value-given(any value, 0 included):constant-padding-with-that-value",
+                 a.get("padding_mode") == "constant" and kw.get("constant_values") is self.ov)]
+
+    def replay(self, model, cfg, ob_name):
+        from neuroglancer_scripts.downscaling import AveragingDownscaler
+        ov = None if cfg == "none" else float(model.get("outside_value", 0))
+        d = AveragingDownscaler(ov)
+        ok = (d.padding_mode == "edge") if ov is None else (d.padding_mode == "constant" and d.pad_kwargs.get("constant_values") == ov)
+        return {"reproduced": not ok, "detail": f"AveragingDownscaler({ov!r}) -> padding_mode={d.padding_mode!r} pad_kwargs={d.pad_kwargs!r}"}
+
+
+@register
+class GetDownscaler(Contract):
+    target = DS + "get_downscaler"
+    props = ("C07", "C06")
+    use_at_call_sites = False
+    configs = (("auto", "image"), ("auto", "segmentation"), ("average", None), ("majority", None), ("stride", None), ("bogus", None))
+
+    def setup(self, c, cfg):
+        self.cfg = cfg
+        ov = c.int("outside_value", inp=True)
+        self.ov = SReal(z3.ToReal(ov.t))
+        info = {"type": cfg[1]} if cfg[1] else None
+        return (cfg[0],), {"info": info, "options": {"outside_value": self.ov}}
+
+    def bind(self, fn, args, kwargs):
+        return {}
+
+    def ensures(self, c, result):
+        from neuroglancer_scripts import downscaling as d
+        m, t = self.cfg
+        want = {"average": d.AveragingDownscaler, "majority": d.MajorityDownscaler, "stride": d.StridingDownscaler}.get(
+            m if m != "auto" else ("average" if t == "image" else "stride"))
+        out = [("known-method", want is not None), ("class-by-method-or-dataset-type", isinstance(result, SObj) and result.cls is want)]
+        if want is d.AveragingDownscaler and isinstance(result, SObj):
+            out.append(("outside-value-option-passed-on", (result.attrs.get("pad_kwargs") or {}).get("constant_values") is self.ov))
+        return out
+
+    def raises_when(self, c):
+        return [(NotImplementedError, self.cfg[0] == "bogus")]
